@@ -60,10 +60,14 @@ func TestCheck(t *testing.T) {
 		r.Violation("harness:fixtures:"+err.Error(), err.Error())
 	}
 	nmax := vk.Pick(r, 4, 5)
-	iters := vk.Pick(r, 2, 4)
-	kinds := []int{ms.SigWrong, ms.SigMalformed, ms.SigZeroR}
+	nall := vk.Pick(r, 3, 4) // up to here every failing kind, beyond only the wrong signature
+	iters := vk.Pick(r, 3, 4)
 	var cfgs []ms.Config
 	for n := 1; n <= nmax; n++ {
+		kinds := []int{ms.SigWrong}
+		if n <= nall {
+			kinds = []int{ms.SigWrong, ms.SigMalformed, ms.SigZeroR}
+		}
 		for _, kp := range ms.KeyPatterns(n) {
 			alpha := ms.SigAlphabet(ms.NumIDs(kp), kinds)
 			for m := 1; m <= n; m++ {
@@ -120,6 +124,7 @@ func TestCheck(t *testing.T) {
 		"distinct_nontrivial":           int(par.Get()),
 		"rule":                          "every m-of-n configuration up to n (see n_max) incl. repeated identical signature bytes, several free-running calls each on elliptic.P256() under the race detector, many calls concurrently; non-trivial = more than one signature (the parallel path)",
 		"n_max":                         nmax,
+		"n_max_all_failing_kinds":       nall,
 		"calls_per_configuration":       iters,
 		"configurations_same_bytes":     int(same.Get()),
 		"accepting_calls":               int(trues.Get()),
